@@ -105,7 +105,8 @@ CLAIMED = {
   "(getTailCall's refusal: call + return, never a tail call, when a close is pending), tail_call_order, forin_closing_value. Proof in two inductions: Proofs/TbcDyn (static heights = stack sizes at block entry, exact equality of machine states) and "
   "Proofs/TbcSpec (truncate-before-jump / cleanup-only-at-pcall versus block-by-block closing). Correspondence: chains of up to 3 nested constructs x to-be-closed declarations "
   "before/after each construct x every exit kind at every level x raising handlers (always / only without / only with an error in flight), rendered under pcall, as a coroutine "
-  "body, with trailing (back) labels and with coroutine.close at a yield, plus random wider programs; golua's event log must equal Spec.Tbc (level A) and Model (level B), and the "
+  "body, with trailing (back) labels, loops as for / repeat-until, the generic for's values through 11 expression-list shapes (explicit, calls, table.unpack, ... with 3/4/5 values, "
+  "parenthesised call), <close>/<const> mixes and with coroutine.close at a yield, plus random wider programs and hand-written static cases (multiple <close>, raw __close lookup, replaced/removed __close, gotos); golua's event log must equal Spec.Tbc (level A) and Model (level B), and the "
   "clpush/cltrunc h/jump/return skeleton of every function (from golua's disassembler) must equal Model.TbcCompile's.",
   "The theorem is about Model.TbcCompile/Model.TbcVM; that these mirror ir/builder.go, astcomp/compstat.go, luacont.go and thread.go rests on the correspondence (exhaustive to depth 2, "
   "sampled at depth 3 in thorough; sampled in quick). Control flow itself (jumps landing on the right instruction) is kept structured in the model: C01's subject. The generic for is modelled as the block the manual "
@@ -119,7 +120,8 @@ CLAIMED = {
   "and nil after exactly count), count_le_two64, no_wraparound, count_maximal, float_loop_values (float loops, every triple incl. NaN and inf/-inf), for_loop_values (all numeric triples), "
   "float_limit_readings_agree, zero_step_error, non_number_error, body_assignment_irrelevant; the only hypothesis left is that floats are genuine doubles (numWF). Correspondence: compiled `for i = a, b, c do emit(i, math.type(i)) end` capped at 40 iterations over the lattice of triples (27 values quick / 69 "
   "thorough: ints around 0, +-2^53, min/maxinteger; floats +-2^63 and neighbours, +-inf, NaN, fractions; numeric strings; non-numbers), exhaustively, as arguments / with the step "
-  "omitted / as literals / with the body assigning to the loop variable, plus random triples near start+k*step; level A against Spec.For, level B against Model.For.",
+  "omitted / as literals / with the body assigning to the loop variable / with the control values coming from reassigned locals, upvalues, globals, "
+  "once-evaluated calls and fields, multi-value calls, captured loop variables, yields (the source variables must stay untouched), plus random triples near start+k*step; level A against Spec.For, level B against Model.For.",
   "Uses Props/C02_Comp (exactness of the regenerated comparisons) and Props/C02_F64. Float addition is the exact model F64.fadd, validated bit for bit against the hardware on every "
   "run. Tolerated where the manual is open: lvm.c's reading for NaN operands in float loops, a float loop with an integer limit beyond 2^53 (exact vs rounded limit), numeric strings "
   "as initial value/step (integer by syntax vs float). String->number conversion is taken from golua's tonumber (C02). One defect found and repaired (5163798, NaN limit/operands).", "6/C16, 14/C16"),
@@ -146,11 +148,13 @@ CLAIMED = {
   "code by the harness: refuse/pass, missing-flag mask, no effect before the gate, context keeps running, nested contexts and "
   "limit-implied flags); closed_set_sound, gated_closed_set_sound, checkCert_sound, validPath_reachable for ALL graphs; per-run "
   "instances iosafe_no_sink, srcs_accounted, graph_complete, sinks_not_gates, gates_guard, compliance_table_resolved over the "
-  "regenerated tables, hence iosafe_clean_sources_reach_no_sink. iosafe_no_sink_through_gates_partial is conditional on "
-  "`holeSrcs = []`, which is false today (io.popen, recorded finding; hole_paths_counterexample proves the offending paths are paths).",
+  "regenerated tables, hence iosafe_clean_sources_reach_no_sink. holes_empty (`holeSrcs = []`), hence iosafe_no_sink_through_gates in full: "
+  "in a context requiring iosafe no iosafe-declared function reaches a sink by any feasible path, gates included "
+  "(hole_paths_counterexample: whenever the extractor does list an offending path, it is a real path).",
   "Trusted: Lean kernel; extract/gofacts (go/packages + x/tools SSA, CHA for interface calls, VTA for function values, the AST "
   "reader of SolemnlyDeclareCompliance sites) — cross-checked each run against the flags the real runtime holds (hook "
-  "VerifGoFunctionInfo); the by-name list of sinks and the one exempt edge (File.cleanup -> os.Remove of golua's own temp file); "
+  "VerifGoFunctionInfo); the by-name list of sinks and the two exempt edges listed in the evidence assumptions (File.cleanup -> os.Remove of golua's own "
+  "temp file; io.popen's close closure -> Cmd.Wait on a child that cannot have been started under iosafe); "
   "stdlib code below a non-sink leaf is not analysed. See DESIGN.md section 6 (C08).", "6/C08"),
  "C20": ("proof",
   "Lean 4: generic non-interference theorem for two machines over a shared component (and its benign-write variant), per-run "
@@ -159,9 +163,9 @@ CLAIMED = {
   "Proved in full (lean/GoluaVerif/Props/C20.lean): frame_noninterference and frame_noninterference_upto for ALL machines and "
   "schedules (induction over the interleaving), runSolo_obs, shared_write_interferes_counterexample. Per-run: "
   "shared_writers_accounted_partial — every (variable, post-init writer reachable from runtime.New / a loader / a registered Go "
-  "function) is in Spec.Isolation.allowlist (os.Std* streams, each justified) or is one of six recorded defects (math/rand global "
-  "source, lib/base.gcRunning + debug.SetGCPercent, SolemnlyDeclareCompliance on package-level GoFunctions in base.Load); the full "
-  "statement sharedWriters ⊆ allowlist is false today (no_shared_writes_partial states it conditionally). Isolation of state hanging "
+  "function) is in Spec.Isolation.allowlist (os.Std* streams, each justified) or is one of the two recorded defect pairs (lib/base.gcRunning and debug.SetGCPercent written by "
+  "collectgarbage; the math/rand and base.Load pairs were repaired in 0304cbf / 90be1b9 and no longer appear in the table); the full "
+  "statement sharedWriters ⊆ allowlist is false until collectgarbage is repaired (no_shared_writes_partial states it conditionally). Isolation of state hanging "
   "off *Runtime (globals, string metatable, package.loaded, io defaults, quotas) rests on the replay only.",
   "Trusted: Lean kernel; the package-level-variable write analysis in extract/gofacts (taint over SSA; sound only up to its rules, "
   "see extract/gofacts/globals.go); the by-name list of process-wide state outside the module; the race detector only samples "
@@ -175,10 +179,10 @@ CLAIMED = {
   "through pcall found by this check is repaired in /repo (0426709) and the repaired behaviour is proved (uninterceptable / kill_exact_nested) and swept at Lua level through pcall / xpcall / callcontext{} / coroutine wrappers; no known finding left.", "6/C05, 14/C05"),
  "C06": ("proof",
   "Lean 4 model of memory accounting over regenerated limit functions: never-reaches-limit / monotone / balanced-release theorems + level A/B correspondence + Lua-level limit sweeps and amplification templates",
-  "Props/C06.lean: mem_never_reaches_limit, mem_kill_step_exact, mem_kill_monotone, limitless_bracket_cannot_absorb_mem, mem_kill_monotone_nested (two-run simulation through any nesting of limit-less brackets), mem_program_killed_by_memory, release_no_underflow_in_frame, release_unlimited_is_noop, require_release_paired (compile pipeline model), and proved "
-  "counterexamples for release across frames. Model/Ctx.lean mirrors runtimecontextmanager.go operation by operation on top of the REGENERATED Generated.Resources (smallerLimit, atLimit, Remove, Merge, Dominates, flag/status constants); Model/CallCtx.lean is Thread.CallContext with the deferred pop and recover explicit. Level B compares the whole context stack (limits, used, status, due, flags of every Parent()) after every operation on a real *rt.Runtime over 36^3 exhaustive boundary histories, random histories incl. API abuse near 2^64 and random CallContext trees; level A re-checks the Spec.Quota relations on the implementation's own trace; Lua legs sweep limits around each generated program's own usage. Amplification templates (rep, concat, unpack, char, format, pack, load, coroutine.create loops, table growth) x N up to 2^40 under 1 MiB with a TotalAlloc bound.",
-  "Real heap growth versus accounted memory is sampled (TotalAlloc under GOMEMLIMIT), not proved; the charge-site extractor of the plan is not built. One recorded design-level defect: a coroutine charged in "
-  "one context and released in another (MEMREL-CORO: 'Too much mem released').", "6/C06, 14/C06"),
+  "Props/C06.lean: mem_never_reaches_limit, mem_kill_step_exact, mem_kill_monotone, limitless_bracket_cannot_absorb_mem (proviso: the body did not release memory of the enclosing context), mem_kill_monotone_nested (two-run simulation through any nesting of limit-less brackets, for programs whose brackets release only their own memory), mem_program_killed_by_memory, release_no_underflow_in_frame, release_unlimited_is_noop; for the cascading ReleaseMem of 8007e69 (mirrored as releaseStack): release_cascades_exactly, release_never_crashes_when_covered (crash iff every context down to the outermost is limited and together they hold less), release_uncovered_is_absorbed, release_never_crashes_from_fresh_runtime (any history, legal or not); require_release_paired (compile pipeline model after fcd5799: every path balanced); and the proved "
+  "stale_limit_absorbs_counterexample / mem_kill_monotone_nested_counterexample (finding C06-STALE-INHERITED-LIMIT). Model/Ctx.lean mirrors runtimecontextmanager.go operation by operation on top of the REGENERATED Generated.Resources (smallerLimit, atLimit, Remove, Merge, Dominates, flag/status constants); Model/CallCtx.lean is Thread.CallContext with the deferred pop and recover explicit. Level B compares the whole context stack (limits, used, status, due, flags of every Parent()) after every operation on a real *rt.Runtime over 36^3 exhaustive boundary histories, random histories incl. API abuse near 2^64 and random CallContext trees; level A re-checks the Spec.Quota relations on the implementation's own trace; Lua legs sweep limits around each generated program's own usage. Amplification templates (rep, concat, unpack, char, format, pack, load, coroutine.create loops, table growth) x N up to 2^40 under 1 MiB with a TotalAlloc bound.",
+  "Real heap growth versus accounted memory is sampled (TotalAlloc under GOMEMLIMIT), not proved; the charge-site extractor of the plan is not built. One recorded defect: after a nested context released memory of its parent its inherited limit is stale and a termination is not propagated "
+  "(C06-STALE-INHERITED-LIMIT; proposed repair: record at PushContext whether a limit is inherited). Note: since 8007e69 a genuine double release is absorbed silently by the unlimited root context.", "6/C06, 14/C06"),
  "C07": ("proof",
   "Lean 4 invariant + conservation theorems over all legal histories of the context stack and over all CallContext trees, on regenerated Remove/Merge/Dominates; level A/B correspondence on the real Runtime",
   "Props/C07.lean (24 theorems): push_hard_le_remaining, push_soft_le_hard, push_flags_superset, push_implied_flags, inv_initial/inv_preserved/inv_reachable (no hypothesis on amounts), used_lt_hard, "
